@@ -1,0 +1,36 @@
+//go:build verif
+
+// Verification hooks (build tag "verif"): expose the formatter and the duration
+// parser to the /verif correspondence harness.  Not part of the normal build.
+
+package macat
+
+import (
+	"bytes"
+	"time"
+
+	"go.nanomsg.org/mangos/v3"
+)
+
+// VerifPrintMsg returns what macat prints for a received message body in the given format.
+func VerifPrintMsg(format string, body []byte) []byte {
+	var buf bytes.Buffer
+	a := &App{printFormat: format, stdOut: &buf}
+	m := mangos.NewMessage(len(body))
+	m.Body = append(m.Body, body...)
+	a.printMsg(m)
+	m.Free()
+	return buf.Bytes()
+}
+
+// VerifParseDuration parses a duration option value the way macat does.
+func VerifParseDuration(s string) (time.Duration, error) {
+	var d Duration
+	err := d.UnmarshalText([]byte(s))
+	return time.Duration(d), err
+}
+
+// VerifSetStdout redirects what the application prints.
+func (a *App) VerifSetStdout(w interface{ Write([]byte) (int, error) }) {
+	a.stdOut = w
+}
